@@ -1,7 +1,7 @@
 (** C10 -- the edit alphabet of the mulgrid model and the run of a sequence of edits. *)
 From Coq Require Import Ascii String List Bool PArith NArith ZArith QArith FMapPositive Lia.
 From PTBase Require Import Exn PyStr.
-From P Require Import Assoc GeoState GeoEdit.
+From P Require Import Assoc GeoState GeoEdit GeoEdit2.
 Import ListNotations.
 Open Scope list_scope.
 
@@ -15,7 +15,17 @@ Inductive op :=
   | SplitCol (c n : str)
   | DelOrphans | IdentifyNbrs | LayerTops | DefaultSurface
   | SetSurface (c : str) (z : Q) | SetNumLayers (c : str)
-  | SetupBlockNames | SetupConnNames.
+  | SetupBlockNames | SetupConnNames
+  (* compound operations; arguments after the first line are hints (iteration orders, float geometry) *)
+  | CheckFix (hmiss : list key2) (hbad : list str)
+  | Reduce (names : list str) (hmiss : list key2) (hbad : list str)
+  | Refine (names : list str) (h : refine_hints)
+  | Triangulate (n : str)
+  | DecomposeCols (names : list str) (hs : list (list nat)) (hmiss : list key2)
+  | RefineLayers (names : list str) (factor : positive)
+  | CopyLayers (lays : list (str * (Q * Q * Q)))
+  | SnapLayers (minth : Q) (names : list str) | SnapNearest (names : list str)
+  | Translate (dx dy dz : Q) | MoveNodes (ps cs : list pt).
 
 Definition step (g : geo) (o : op) : res geo :=
   match o with
@@ -40,6 +50,17 @@ Definition step (g : geo) (o : op) : res geo :=
   | SetNumLayers c => set_num_layers g c
   | SetupBlockNames => setup_block_name_index g
   | SetupConnNames => setup_block_connection_name_index g
+  | CheckFix hmiss hbad => check_fix g hmiss hbad
+  | Reduce names hmiss hbad => reduce g names hmiss hbad
+  | Refine names h => refine g names h
+  | Triangulate n => do gl <- triangulate_column g n; Ok (fst gl)
+  | DecomposeCols names hs hmiss => decompose_columns g names hs hmiss
+  | RefineLayers names factor => refine_layers g names factor
+  | CopyLayers lays => copy_layers_from g lays
+  | SnapLayers minth names => snap_columns_to_layers g minth names
+  | SnapNearest names => snap_columns_to_nearest_layers g names
+  | Translate dx dy dz => Ok (translate g dx dy dz)
+  | MoveNodes ps cs => move_nodes g ps cs
   end.
 
 Fixpoint run (g : geo) (ops : list op) : res geo :=
